@@ -455,6 +455,19 @@ struct Transport::Impl
         }
       }
 
+      // 1b. Mark an existing sync receive buffer closed BEFORE any close callback runs
+      // (step 6 repeats it and wakes the waiters): from here on a concurrent
+      // setReadMode(Async) flush stops handing this id's bytes to onData, so no data
+      // callback follows the close callbacks. The buffered tail stays for receiveSync.
+      {
+        std::lock_guard<std::mutex> lk(syncMutex);
+        auto bufIt = receiveBuffers.find(sid);
+        if (bufIt != receiveBuffers.end())
+        {
+          bufIt->second->closed = true;
+        }
+      }
+
       // 2. Invoke global onClose FIRST
       CloseCallback closeCb;
       {
@@ -1121,6 +1134,15 @@ inline bool Transport::setReadMode(SessionId sid, ReadMode mode)
       return true;
     }
     buf = bufIt->second;
+    if (buf->closed)
+    {
+      // The session's close has already been reported (onClose marks the buffer closed
+      // under syncMutex). Handing its leftover bytes to onData now would deliver data
+      // for an id AFTER its close. The tail stays retrievable through receiveSync
+      // (drain-before-PeerClosed); a closed id has no read mode.
+      _impl->readModes.erase(sid);
+      return true;
+    }
     // Construct the guard UNDER the fetch lock (its ctor sets flushing +
     // ++activeFlushes with no GC window) — increment and decrement owned by one
     // RAII object (L-2). It outlives this scope via the unique_ptr; its dtor
@@ -1141,6 +1163,12 @@ inline bool Transport::setReadMode(SessionId sid, ReadMode mode)
       if (_impl->shuttingDown)
       {
         return false;
+      }
+      if (buf->closed)
+      {
+        // Closed while this flush was running: stop delivering (onClose has erased the
+        // read mode); what is still buffered remains for receiveSync.
+        return true;
       }
       if (!buf->data.empty())
       {
